@@ -55,8 +55,8 @@ Definition C10_full : Prop := forall (mangle : text -> text) t,
 (* Proved for every mangle function and every tree over the modelled heads (literals, symbols,
    keywords, list/tuple/set/dict displays, calls with keyword and unpacking arguments, the
    operator macros, and/or, if, get, unpack-iterable, chainc; other heads give CUnmodelled)
-   that avoids the shapes of [good]: odd or mis-aligned dict displays, an argument-less
-   (unpack-mapping) form, #** operands of comparisons, chainc without a comparison pair.
+   that avoids the shapes of [good]: dict displays in which a #** form sits in a value position, an
+   argument-less (unpack-mapping) form, chainc without a comparison pair.
    The outcome is a validator-accepted AST or a user-facing error -- never an internal one. *)
 Theorem C10_compile_outcome_classes_partial : forall (mangle : text -> text) t, good t = true ->
   match compile mangle t with COk e => validate e = true | CInternal => False | _ => True end.
@@ -64,19 +64,19 @@ Proof. exact compile_outcome. Qed.
 Print Assumptions C10_compile_outcome_classes_partial.
 
 (* Each excluded shape refutes the full statement (witnesses replayed on the real compiler:
-   findings C10-odd-dict, C10-chainc-no-pairs, C10-compare-unpack-mapping,
-   C10-dict-unpack-in-value-position, C10-bare-unpack-mapping). *)
-Theorem C10_refuted_odd_dict : exists e, compile toy_mangle (HDict [HInt 1]) = COk e /\ validate e = false.
-Proof. exact refuted_odd_dict. Qed.
+   findings C10-chainc-no-pairs, C10-dict-unpack-in-value-position, C10-bare-unpack-mapping). *)
 Theorem C10_refuted_chainc_single :
   exists e, compile toy_mangle (HExpr [sym [99;104;97;105;110;99]; x_]) = COk e /\ validate e = false.
 Proof. exact refuted_chainc_single. Qed.
-Theorem C10_refuted_compare_unpack_mapping :
-  exists e, compile toy_mangle (HExpr [sym [61]; x_; x_; HExpr [HSym s_unpack_mapping; x_]]) = COk e /\ validate e = false.
-Proof. exact refuted_compare_unpack_mapping. Qed.
 Theorem C10_refuted_dict_unpack_misaligned :
-  exists e, compile toy_mangle (HDict [x_; HExpr [HSym s_unpack_mapping; x_]; x_]) = COk e /\ validate e = false.
+  exists e, compile toy_mangle (HDict [x_; HExpr [HSym s_unpack_mapping; x_]; x_; x_]) = COk e /\ validate e = false.
 Proof. exact refuted_dict_unpack_misaligned. Qed.
+(* after the fixes bac53a5 / c0e258f an odd dict and a #** operand of a comparison are user-facing errors *)
+Example C10_odd_dict_is_user_error : compile toy_mangle (HDict [HInt 1]) = CUser.
+Proof. exact odd_dict_is_user_error. Qed.
+Example C10_compare_unpack_mapping_is_user_error :
+  compile toy_mangle (HExpr [sym [61]; x_; x_; HExpr [HSym s_unpack_mapping; x_]]) = CUser.
+Proof. exact compare_unpack_mapping_is_user_error. Qed.
 Theorem C10_refuted_bare_unpack_mapping : compile toy_mangle (HList [HExpr [HSym s_unpack_mapping]]) = CInternal.
 Proof. exact refuted_bare_unpack_mapping. Qed.
 Print Assumptions C10_refuted_bare_unpack_mapping.
